@@ -225,7 +225,8 @@ Section Loop.
         end
     end.
 
-  Hypothesis Htry : tp_try p = true.
+  (* the try / except block is there, or no term calls next() *)
+  Hypothesis Htry : tp_try p = true \/ rd = [].
   Hypothesis Hok : terms_ok L P bs az ts.
   Hypothesis Hnd : NoDup (0%nat :: rd).
   Hypothesis Hclean : forall h c, In (h, c) L -> fst (aterms bs az ts p_zero) h c = 0%nat.
@@ -275,7 +276,8 @@ Section Loop.
       assert (forallb (alive S n) rd = false) as ->.
       { apply not_true_is_false. intro Hall. rewrite forallb_forall in Hall. specialize (Hall i Hin).
         unfold alive in Hall. rewrite Hd in Hall. discriminate. }
-      exists t1, EvStop. split; [exact Hro|]. split; [simpl; rewrite Htry; reflexivity|left; reflexivity].
+      destruct Htry as [Htry'|Hnil]; [|rewrite Hnil in Hin; destruct Hin].
+      exists t1, EvStop. split; [exact Hro|]. split; [simpl; rewrite Htry'; reflexivity|left; reflexivity].
     - destruct (forallb (alive S n) rd).
       + rewrite Hs. exists t1. split; [exact Hro|reflexivity].
       + exists t1, (EvRaise XZeroDiv). split; [exact Hro|]. split; [reflexivity|right; split; [reflexivity|exact (HErr eq_refl)]].
@@ -287,7 +289,7 @@ Theorem run_tv_spec S L P (f : tfilt) (p : tprog) memory zero fuel :
   let bs := stream_iters (t_num f) in
   let az := stream_iters (t_den f) in
   let ts := p_terms (tp_prog p) in
-  tp_try p = true ->
+  (tp_try p = true \/ snd (aterms bs az ts p_zero) = []) ->
   terms_ok L P bs az ts ->
   NoDup (0%nat :: snd (aterms bs az ts p_zero)) ->
   (forall h c, In (h, c) L -> fst (aterms bs az ts p_zero) h c = 0%nat) ->
